@@ -219,6 +219,25 @@ pub fn check_net(w: &World, algo: &Algo, orient: &Orient, reverse: bool, tier: T
         if ksp {
             continue;
         }
+        // the iteration limit counts every pop, also of vertices without onward edges (which the recording frontier cannot
+        // see): on a tie-free network Dijkstra pops exactly the vertices nearer than the destination (all reachable ones when
+        // there is no destination or it cannot be reached) - N of them - and the limit test before pop number i lets it
+        // through while i < limit, so the search completes iff limit > N
+        if let (Term::Iterations(l), Algo::Dijkstra, Orient::Vertex { o, d }) = (term, algo, orient) {
+            let cost_of = |e: usize| Some(w.ref_edge_cost(None, e));
+            let dist = crate::refmodel::graph::bellman_ford(net, *o, !reverse, &cost_of);
+            let dt = d.map(|d| dist[d]).filter(|x| x.is_finite());
+            let n_ref = match dt {
+                Some(dt) => dist.iter().filter(|x| **x < dt).count(),
+                None => dist.iter().filter(|x| x.is_finite()).count(),
+            };
+            let completed = matches!(r.out, Outcome::Ok { .. } | Outcome::NoPath(_));
+            if completed == ((*l as usize) > n_ref) {
+                st.pass("iteration_limit_counts_every_pop");
+            } else {
+                st.violation(&comp, "iteration_limit_counts_every_pop", size, || format!("limit {}: the search {} although the reference search pops {} vertices before it is done", l, if completed { "completed" } else { "was terminated" }, n_ref), case);
+            }
+        }
         // work bounds (plain searches): observed expansions / labelled vertices, from the recording frontier
         let mut it_limit: Option<usize> = None;
         let mut size_limit: Option<usize> = None;
